@@ -257,7 +257,9 @@ struct PkRun {
         int r = track ? vorbis_synthesis_trackonly(&o->vb, &p) : vorbis_synthesis(&o->vb, &p); h.i64(r);
         check(r == 0 || documented_code(r), track ? "trackonly" : "synthesis", "undocumented-return", fmt("ret=%d", r));
         if (r == 0) { int br = vorbis_synthesis_blockin(&o->vd, &o->vb); h.i64(br); check(br == 0 || documented_code(br), "blockin", "undocumented-return", fmt("ret=%d", br)); }
-        else { any_reject = true; g_stats.inc("probe.packet_rejected"); }
+        else { any_reject = true; g_stats.inc("probe.packet_rejected");
+          // the property quantifies over all call orders: a caller that ignores the error and submits the block anyway
+          if (op.i("force_blockin", 0)) { int br = vorbis_synthesis_blockin(&o->vd, &o->vb); h.i64(br); check(br == 0 || documented_code(br), "blockin", "undocumented-return", fmt("ret=%d", br)); g_stats.inc("probe.blockin_after_rejected_packet"); } }
         // drain
         int mode = (int)op.i("drain", 1);   // 0 none, 1 all, 2 partial, 3 over-long read, 4 lapout
         float **pcm; int n;
@@ -274,6 +276,8 @@ struct PkRun {
             if (mode == 2) break;
           }
         }
+      } else if (k == "halfrate") {   // toggled on the vorbis_info while a decoder built from it may be live (the API asks for a re-init; the property says all orders)
+        if (!have_vi) continue; int r = vorbis_synthesis_halfrate(&o->vi, (int)op.i("flag", 1)); h.i64(r); g_stats.inc("probe.halfrate_toggled_mid_stream");
       } else if (k == "restart") {
         if (!have_vd) continue; int r = vorbis_synthesis_restart(&o->vd); h.i64(r); check(r == 0 || r == -1, "restart", "undocumented-return", fmt("ret=%d", r));
       } else if (k == "clear") {
@@ -401,15 +405,17 @@ struct PkGen {
     if (g.chance(0.1)) op("init");
     int n = (int)g.range(0, thorough ? 300 : 80); size_t j = 0; double pf = g.chance(0.3) ? 0.0 : 0.05 + g.unit() * 0.5;
     int64_t go = 0; bool regime = g.chance(0.2); if (regime) { static const int64_t offs[] = {2147483648LL, 4294967296LL, 4294967296LL + 12345, 1099511627776LL, 4611686018427387904LL, INT64_MAX - 50000}; go = offs[g.below(6)]; pf *= 0.3; }
-    double glp = regime ? 0.08 : 0.01;
+    double glp = regime ? 0.08 : 0.01; bool midhr = g.chance(0.25);
     for (int i = 0; i < n && P > 0; i++) {
       double v = g.unit();
       if (v < 0.03) { op("restart"); continue; }
       if (v < 0.04) { op("init").set("halfrate", (int64_t)g.below(2)); continue; }
+      if (v < 0.05 && midhr) { op("halfrate").set("flag", (int64_t)g.below(2)); continue; }
       if (v < 0.10) j = g.below((uint64_t)P); else if (v < 0.13) { /* duplicate */ } else j++;
       if ((int)j >= P) j = (size_t)P - 1;
       Rec &o = op("pkt"); o.setu("j", j); fault(o, pf);
       if (g.chance(0.15)) o.set("track", 1);
+      if (o.has("fault") && g.chance(0.15)) o.set("force_blockin", 1);
       double dv = g.unit(); o.set("drain", dv < 0.72 ? 1 : dv < 0.82 ? 0 : dv < 0.92 ? 2 : 3);   // (vorbis_synthesis_lapout is not among the calls C02 quantifies over) if (o.i("drain") == 3) o.setu("b", g.next() % 100000);
       if (g.chance(0.04)) { static const int64_t gl[] = {-1, -2, 0, 1, INT64_MAX, INT64_MIN, 123456789012LL}; o.set("gp", gl[g.below(7)]); }
       if (go) o.set("go", go);
